@@ -26,6 +26,20 @@ CHECKS["C02"] = dict(
         "against Python float(), not proved. Identifier binding is C07. New (4.x) syntax only.",
    technique="Lean 4 round-trip theorem for a Pratt model over a table translated from parser.y + differential correspondence",
    design="4/C02")
+CHECKS["C03"] = dict(
+   text="Lean 4 proof: a token-level model of expression_t::print (layout per kind with embrace / embrace_strict, tables regenerated from "
+        "expression.cpp get_precedence/print on every run) composed with the grammar model of C02: parse(str e) = e and "
+        "str(parse(str e)) = str e for every tree (all operator pairs and positions, unbounded) that meets a computed, decidable criterion; "
+        "the criterion's failures are enumerated from the tables as (parent, position, child) classes, each with a regenerated witness "
+        "theorem proving the negation, and replayed on the library. Correspondence: real str() against the model's token stream, real "
+        "parse/str/parse/equal/str on random accepted trees and all witnesses. Query forms (A[] E<> Pr E[] simulate control* minE/maxE "
+        "strategies) are exercised on the real library by the same oracle but are outside the Lean model (testing).",
+   note="Trusted: Lean kernel, axioms propext/Quot.sound/Classical.choice, translate/printer.py + exprgrammar.py, harness/c02.cpp, c03q.cpp. "
+        "The theorem is about token streams; that lexing the printed text gives those tokens is checked per case, not proved. Literal "
+        "formatting (doubles, strings, -2147483648), the quantifier binder type text and all query syntax are not modelled: deviations there "
+        "are found by the differential oracle only (4 known findings listed in known_findings.d/C03.json; 3 defects repaired by fix: commits).",
+   technique="Lean 4 print/parse round-trip theorem over tables translated from expression.cpp and parser.y + differential correspondence",
+   design="4/C03")
 NOT_APPLICABLE = {}
 ALL = ["C%02d" % i for i in range(1, 21)]
 PENDING = "check not built yet in this revision (work in progress, see DESIGN.md section 8 order of work)"
